@@ -35,6 +35,8 @@ def run(prog, chk):
     path_subpath_start(prog, chk)
     points_parity(prog, chk)
     use_translation(prog, chk)
+    translation_before_clip(prog, chk)
+    clip_failure_modes(prog, chk)
     clip_result_stored_whole(prog, chk)
     from props import C16
     C16.extent_accumulation(prog, chk)  # repeated bodies: every rendered pass is counted in the extent
@@ -388,6 +390,38 @@ def use_translation(prog, chk):
         assume.update({bb: 1 for bb in gets[other]})
         ok = R.may_reach(b, tr, R.option_assumption(b, assume))
         chk.ob(ok, "A13.use-translation", f"get_clipped_bbox:only-{other}", b.where(), f"a <use>/<reuse> with `{other}` but no `{absent}` still has its bounding box translated", f"with `{absent}` absent the translation of a <use>/<reuse> bounding box is unreachable: `<use href=.. {other}=..>` contributes its target's untranslated box to the extent")
+
+
+def translation_before_clip(prog, chk):
+    """a <use> is drawn where its x / y put it, and its clip-path applies to it there: in get_clipped_bbox the box is
+    translated before it is intersected with the clip box (no path runs from the intersection to the translation)"""
+    b = prog.body("svgdx::context::TransformerContext::get_clipped_bbox")
+    chk.touch(b)
+    tr = {bb for (bb, t, c) in b.call_sites(R.path_endswith("BoundingBox::translated"))}
+    ix = [(bb, t) for (bb, t, c) in b.call_sites(R.path_endswith("BoundingBox::intersect"))]
+    if not tr or not ix:
+        chk.undecided("A13.translate-then-clip", "get_clipped_bbox", b.where(), f"translated() / intersect() calls not found in get_clipped_bbox ({len(tr)}, {len(ix)})")
+        return
+    late = [b.where(bb, t.get("line")) for (bb, t) in ix if tr & b.reach([t["t"]])]
+    chk.ob(not late, "A13.translate-then-clip", "get_clipped_bbox", b.where(), "the use / reuse offset is applied before the clip box is intersected", f"the clip box is intersected (at {late}) before the use / reuse offset is applied: the clip region - given in the coordinates where the content is drawn - cuts the untranslated box, and the wrong part of the element counts towards the extent")
+
+
+CLIP_ERRORS_OK = {"CircularRefError", "InvalidData", "ReferenceError"}
+
+
+def clip_failure_modes(prog, chk):
+    """following clip-path references fails only for the reviewed reasons (a cycle, a malformed url(), an unknown id): a
+    clip path that merely has no box of its own leaves the element unclipped - it is not an error"""
+    b = prog.body("svgdx::context::TransformerContext::get_clipped_bbox")
+    chk.touch(b)
+    made = set()
+    for cb in [b] + [x for x in prog.bodies.values() if x.root == b.id]:
+        for x, i, st in cb.all_stmts():
+            rv = st.get("rv") or {}
+            if rv.get("k") == "aggr" and rv.get("adt") == "svgdx::errors::SvgdxError" and rv.get("variant"):
+                made.add(rv["variant"])
+    extra = sorted(made - CLIP_ERRORS_OK)
+    chk.ob(not extra, "A6.clip-failure-modes", "get_clipped_bbox", b.where(), f"get_clipped_bbox raises only {sorted(CLIP_ERRORS_OK)}", f"get_clipped_bbox can now fail with {extra}: an element whose clip path has no computable box (an empty <clipPath>, one holding only unsupported content) makes the transform fail instead of being left unclipped", by="table")
 
 
 def clip_result_stored_whole(prog, chk):
